@@ -26,16 +26,24 @@ Definition code (s : status) : N :=
   | Done Ok => sDoneOk | Done ErrEp => sDoneErrEp | Done ErrTotal => sDoneErrTot
   | _ => 9%N   (* a goroutine that can still move: never observed by the harness *)
   end.
+(* a request whose goroutine the harness parked at the scheduling point "ep-ctx-done" (after the
+   select of acquireEndpoint took <-ctx.Done(), before cancelEndpoint) *)
+Definition code_hold (hold : list N) (r : N) (s : status) : N :=
+  match s with
+  | CancelQ | CancelG => if mem r hold then sCancelling else 9%N
+  | _ => code s
+  end.
 
 Definition nseq (n : N) : list N := map N.of_nat (seq 0 (N.to_nat n)).
 
-Definition observe (l : lim) (n nk : N) : obs :=
-  Ob (map (fun r => code (st l r)) (nseq n))
+Definition observe_hold (hold : list N) (l : lim) (n nk : N) : obs :=
+  Ob (map (fun r => code_hold hold r (st l r)) (nseq n))
      (map (fun k =>
         (Z.of_nat (length (filter (fun r => N.eqb (keyof l r) k && match st l r with InFlight => true | _ => false end) (arr l))),
          match tab l k with Some (c, _) => c | None => -1 end,
          match tab l k with Some (_, q) => Z.of_nat (length q) | None => 0 end)) (nseq nk))
      (held l, Z.of_nat (length (semq l))).
+Definition observe (l : lim) (n nk : N) : obs := observe_hold [] l n nk.
 
 Definition acts_of (e : ev) : list act :=
   match e with
@@ -43,11 +51,20 @@ Definition acts_of (e : ev) : list act :=
   | EArrC r k => [Cancel r; Arrive r k]
   | ECan r => [Cancel r]
   | EFin r => [Finish r]
+  | ECanH r => [Cancel r; SeeCancel r]
+  | ERes r => []
+  end.
+(* the goroutines that stay parked after the event *)
+Definition hold_after (hold : list N) (e : ev) : list N :=
+  match e with
+  | ECanH r => r :: hold
+  | ERes r => filter (fun x => negb (N.eqb x r)) hold
+  | _ => hold
   end.
 
 Definition fuel_for (n : N) : nat := 12 * (N.to_nat n + 2).
-Definition do_ev (fx : bool) (n : N) (l : lim) (e : ev) : lim :=
-  settle_gen fx (fuel_for n) (fold_left (step_gen fx) (acts_of e) l).
+Definition do_ev (fx : bool) (n : N) (hold : list N) (l : lim) (e : ev) : lim :=
+  settle_hold_gen fx (fuel_for n) (hold_after hold e) (fold_left (step_gen fx) (acts_of e) l).
 
 Definition list_eqb {A} (eqb : A -> A -> bool) (a b : list A) : bool :=
   (length a =? length b)%nat && forallb (fun p => eqb (fst p) (snd p)) (combine a b).
@@ -67,20 +84,21 @@ Definition obs_eqb (racy : list N) (m o : obs) : bool :=
   sts_eqb racy 0 (o_sts m) (o_sts o) && list_eqb key_eqb (o_keys m) (o_keys o) &&
   (fst (o_sem m) =? fst (o_sem o)) && (snd (o_sem m) =? snd (o_sem o)).
 
-Fixpoint agrees_hist (fx : bool) (n nk : N) (l : lim) (racy : list N) (h : list (ev * obs)) : bool :=
+Fixpoint agrees_hist (fx : bool) (n nk : N) (l : lim) (hold : list N) (racy : list N) (h : list (ev * obs)) : bool :=
   match h with
   | [] => true
   | (e, o) :: h' =>
-      let l' := do_ev fx n l e in
+      let l' := do_ev fx n hold l e in
+      let hold' := hold_after hold e in
       let racy' := match e with EArrC r _ => r :: racy | _ => racy end in
-      quiescent l' && obs_eqb racy' (observe l' n nk) o && agrees_hist fx n nk l' racy' h'
+      quiescent_hold hold' l' && obs_eqb racy' (observe_hold hold' l' n nk) o && agrees_hist fx n nk l' hold' racy' h'
   end.
 
 Definition agrees (c : case) : bool :=
   match c with
-  | H epl tot n nk h => agrees_hist true n nk (new_lim tot epl) [] h
+  | H epl tot n nk h => agrees_hist true n nk (new_lim tot epl) [] [] h
   | Free epl tot n nok nerr maxg maxtot o0 nk n2 h =>
-      (nok + nerr =? n) && agrees_hist true n2 nk (new_lim tot epl) [] h
+      (nok + nerr =? n) && agrees_hist true n2 nk (new_lim tot epl) [] [] h
   | Wire _ _ _ _ => true
   end.
 
@@ -89,7 +107,8 @@ Definition obs0 (n nk : N) : obs := observe (new_lim 0 0) n nk.
 (* failure classes (Spec.step_class): 1 endpoint limit exceeded, 2 total limit exceeded,
    3 admitted out of arrival order, 4 cancelled waiter changed somebody else's state,
    5 not idle after all calls returned, 6 new request not admitted by an idle limiter,
-   7 panic/hang/unknown status, 8 a request waits although a slot is free *)
+   7 panic/hang/unknown status, 8 a request waits although a slot is free,
+   9 the slots taken of a path do not match the requests that own one *)
 Definition pclass (c : case) : N :=
   match c with
   | H epl tot n nk h => hist_class epl tot (obs0 n nk) [] h
@@ -112,6 +131,6 @@ Definition property_failures (cs : list case) : list (N * N) := classes pclass c
 (* the same history evaluated against the model of the code before the repair of F10 *)
 Definition agrees_pre (c : case) : bool :=
   match c with
-  | H epl tot n nk h => agrees_hist false n nk (new_lim tot epl) [] h
+  | H epl tot n nk h => agrees_hist false n nk (new_lim tot epl) [] [] h
   | _ => true
   end.
